@@ -39,26 +39,36 @@ theorem script_concat (c : TokClass τ) (ps : List τ → Except ε (α × List 
     (Nat.lt_succ_of_le (script_length c items sep0 hstart))
   simpa [parseStatements] using this
 
-/-- a statement must be followed by a separator, EOF — or the keyword END (next theorem) -/
+/-- a statement must be followed by a separator or EOF (in a block body also by END, next theorem) -/
 theorem requires_separator (c : TokClass τ) (ps : List τ → Except ε (α × List τ)) (fuel : Nat)
     (t : τ) (rest : List τ) (acc : List α) (h1 : c.isSemi t = false) (h2 : c.isEndKw t = false) :
     loop c ps (fuel + 1) true (t :: rest) acc = .error .expectedEnd := by
   simp [loop, dropSemis, h1, h2]
 
-/-- **Deviation kept visible** (known finding): after a complete statement the keyword `END` ends the
-whole script successfully and everything after it is dropped without being parsed. -/
+/-- In a BLOCK body (`blockClass`, CREATE PROCEDURE … BEGIN … END) the keyword `END` after a complete
+statement ends the list and leaves the rest to the caller.  Until fix cc0dcb4 the top-level script loop
+did the same and silently dropped the rest of the script; the script classes (`sqlClass`,
+`Query.stmtClass`) now have `isEndKw = false`, so `requires_separator` applies to every token
+(`script_requires_separator`). -/
 theorem end_keyword_drops_tail (c : TokClass τ) (ps : List τ → Except ε (α × List τ)) (fuel : Nat)
     (t : τ) (rest : List τ) (acc : List α) (h1 : c.isSemi t = false) (h2 : c.isEndKw t = true) :
     loop c ps (fuel + 1) true (t :: rest) acc = .ok acc := by
   simp [loop, dropSemis, h1, h2]
 
+/-- a script never ends at END: after a complete statement every token that is not `;` is an error -/
+theorem script_requires_separator (ps : List STok → Except ε (α × List STok)) (fuel : Nat)
+    (t : STok) (rest : List STok) (acc : List α) (h1 : t ≠ .semi) :
+    loop sqlClass ps (fuel + 1) true (t :: rest) acc = .error .expectedEnd :=
+  requires_separator sqlClass ps fuel t rest acc (by simp [sqlClass, h1]) rfl
+
 theorem parseSelect_local (n : Nat) : LocalOn sqlClass parseSelect [.select, .num n] (toString n) := by
   intro f _; rfl
 
--- non-vacuity: `; SELECT 1 ;; SELECT 2 ;` and the END deviation `SELECT 1 END other`
+-- non-vacuity: `; SELECT 1 ;; SELECT 2 ;`, `SELECT 1 END other` (rejected in a script, cut in a block)
 example : parseStatements sqlClass parseSelect
     [.semi, .select, .num 1, .semi, .semi, .select, .num 2, .semi] = .ok ["1", "2"] := by rfl
-example : parseStatements sqlClass parseSelect [.select, .num 1, .endKw, .other] = .ok ["1"] := by rfl
+example : parseStatements sqlClass parseSelect [.select, .num 1, .endKw, .other] = .error .expectedEnd := by rfl
+example : parseStatements sqlBlockClass parseSelect [.select, .num 1, .endKw, .other] = .ok ["1"] := by rfl
 example : parseStatements sqlClass parseSelect [.select, .num 1, .select, .num 2] = .error .expectedEnd := by rfl
 
 /-- The full property quantifies over every statement kind of every dialect being local. -/
